@@ -48,6 +48,42 @@ partial def parseVal (j : Json) : Except String PyVal := do
       return .obj (← q[0]!.getNat?) (← q[1]!.getNat?)
     throw s!"unknown value tag {j.compress}"
 
+def encExt (x : ExtRat) : Json :=
+  match x with
+  | .nan => Json.str "nan"
+  | .pinf => Json.str "inf"
+  | .ninf => Json.str "-inf"
+  | .fin q => Json.arr #[toJson q.num, toJson q.den]
+
+/-- the tagged JSON form of a value (what harness/props/c01.py `E` produces) -/
+partial def encVal : PyVal → Json
+  | .none => Json.null
+  | .num .bool x => Json.mkObj [("b", Json.bool (x.eq (.fin 1)))]
+  | .num .int x => (match x with
+      | .fin q => Json.mkObj [("i", toJson q.num)]
+      | e => Json.mkObj [("i", encExt e)])
+  | .num .float x => Json.mkObj [("f", encExt x)]
+  | .num .frac x => Json.mkObj [("q", encExt x)]
+  | .num .dec x => Json.mkObj [("d", encExt x)]
+  | .str s => Json.mkObj [("s", Json.str s)]
+  | .bytes s => Json.mkObj [("y", Json.str s)]
+  | .list xs => Json.mkObj [("l", Json.arr (xs.map encVal).toArray)]
+  | .tuple xs => Json.mkObj [("t", Json.arr (xs.map encVal).toArray)]
+  | .dict ks vs => Json.mkObj [("m", Json.arr ((ks.zip vs).map fun (k, v) => Json.arr #[encVal k, encVal v]).toArray)]
+  | .date d => Json.mkObj [("D", toJson d)]
+  | .datetime u => Json.mkObj [("T", toJson u)]
+  | .func i g => Json.mkObj [("fn", toJson i), ("gen", Json.bool g)]
+  | .cls i => Json.mkObj [("c", toJson i)]
+  | .obj c i => Json.mkObj [("o", Json.arr #[toJson c, toJson i])]
+
+def parseHook (j : Json) : Except String Hook := do
+  match ← getStr j "hook" with
+  | "ident" => return .identity
+  | "double" => return .double
+  | "neg" => return .neg
+  | "const" => return .const (← parseVal (← j.getObjVal? "k"))
+  | o => throw s!"unknown hook {o}"
+
 def parsePType (s : String) : Except String PType :=
   match s with
   | "String" => pure .string | "Bytes" => pure .bytes | "Number" => pure .number
@@ -101,6 +137,18 @@ def parseArgs (t : PType) (args : Json) : Except String Args := do
       let a ← b.getArr?
       pure (some (← a[0]!.getBool?, ← a[1]!.getBool?))
     | none => pure none
+  let softbounds ← match arg args "softbounds" with
+    | some b => some <$> parseBounds b
+    | none => pure none
+  let hook ← match arg args "set_hook" with
+    | some h => some <$> parseHook h
+    | none => pure none
+  let constant ← match arg args "constant" with
+    | some b => some <$> b.getBool?
+    | none => pure none
+  let readonly ← match arg args "readonly" with
+    | some b => some <$> b.getBool?
+    | none => pure none
   let step ← match arg args "step" with
     | some d => optVal d
     | none => pure none
@@ -132,7 +180,7 @@ def parseArgs (t : PType) (args : Json) : Except String Args := do
   let allowNamed ← match arg args "allow_named" with
     | some b => some <$> b.getBool?
     | none => pure none
-  return { ptype := t, default, allowNone, bounds, incl, step, length,
+  return { ptype := t, default, allowNone, bounds, incl, softbounds, step, length, hook, constant, readonly,
            regex := (arg args "regex").isSome, lenBounds, itemType, isInstance, objects,
            checkOnSet, classes, allowNamed }
 
@@ -145,8 +193,10 @@ def resName : R → String
   | .ok _ => "ok"
   | .error e => errName e
 
-def routeKeys : List String := ["kw", "inst", "upd", "cls"]
+def routeKeys : List (String × Route) :=
+  [("kw", .ctorKw), ("inst", .instAttr), ("upd", .update), ("cls", .clsAttr), ("cupd", .clsUpdate)]
 def aliasKeys : List String := ["inst", "upd", "cls"]
+def aliasSit (k : String) (same : Bool) : Situation := if k == "cls" then .classLevel else .initialised same
 
 def jSlots (c : Cfg) : Json :=
   let hasLen := match c.ptype with
@@ -163,7 +213,8 @@ def jSlots (c : Cfg) : Json :=
         (match c.bounds with
          | none => Json.null
          | some (lo, hi) => Json.arr #[Json.bool lo.isSome, Json.bool hi.isSome]) else Json.null),
-    ("check_on_set", if isSel then Json.bool c.checkOnSet else Json.null)]
+    ("check_on_set", if isSel then Json.bool c.checkOnSet else Json.null),
+    ("constant", Json.bool c.constant), ("readonly", Json.bool c.readonly)]
 
 def optStr (j : Json) : Option String :=
   match j with
@@ -221,13 +272,27 @@ def handle (req : Json) : Except String Json := do
     for v in values do
       let x := ctxOf (rxs.getD i false)
       let iv := implVals.getD i Json.null
-      let r := validate c x v
-      let out := resName r
-      let rb : Json := match r with
-        | .ok _ => Json.str (expectedReadback c v)
-        | .error _ => Json.null
-      let mut fields : List (String × Json) := routeKeys.map fun k => (k, Json.arr #[Json.str out, rb])
-      -- deserialisation route: validate what the implementation deserialised
+      -- a non-identity hook changes what is stored: the read-back is then compared by value
+      let hooked := hasHook c.ptype && (match c.hook with | .identity => false | _ => true)
+      let rbOf (w : PyVal) : Json :=
+        if hooked then Json.mkObj [("val", encVal (storedValue c (setterValue c w)))]
+        else Json.str (expectedReadback c w)
+      let outOf (o : Outcome) (fallback : R) : String × Bool := match o with
+        | .stored _ _ => ("ok", true)
+        | .rejected e => (errName e, false)
+        | .notModelled => (resName fallback, match fallback with | .ok _ => true | .error _ => false)
+      let sameOf (o : Json) : Bool := match o with
+        | .arr a => (a[2]?.bind (·.getBool?.toOption)).getD false
+        | _ => false
+      let mut fields : List (String × Json) := []
+      let mut modelOuts : List (String × String × Json) := []
+      for (k, route) in routeKeys do
+        let same := sameOf ((iv.getObjVal? k).toOption.getD Json.null)
+        let (out, acc) := outOf (assign route c x same v) (.ok ())
+        let rb : Json := if acc then rbOf v else Json.null
+        fields := fields ++ [(k, Json.arr #[Json.str out, rb, Json.bool same])]
+        modelOuts := modelOuts ++ [(k, out, rb)]
+      -- deserialisation route
       let dj := (iv.getObjVal? "deser").toOption.getD Json.null
       let mut dv? : Option PyVal := none
       match dj with
@@ -239,46 +304,56 @@ def handle (req : Json) : Except String Json := do
           dv? := some dv
           -- the model deserialises itself where it can (Tuple family, identity types), and falls back
           -- to the implementation's deserialised value for the date types (strptime: C15)
-          let rd : R := match assign .deser c x jv with
-            | .stored _ _ => .ok ()
-            | .rejected e => .error e
-            | .notModelled => validate c x dv
-          let rbd : Json := match rd with
-            | .ok _ => Json.str (expectedReadback c dv)
-            | .error _ => Json.null
-          fields := fields ++ [("deser", Json.arr #[Json.str (resName rd), rbd, a[2]!, a[3]!])]
+          let (outd, accd) := match assign .deser c x false jv with
+            | .notModelled => outOf (setter c x .uninitialised .instanceValue dv) (.ok ())
+            | o => outOf o (.ok ())
+          let rbd : Json := if accd then rbOf dv else Json.null
+          fields := fields ++ [("deser", Json.arr #[Json.str outd, rbd, a[2]!, a[3]!])]
         else fields := fields ++ [("deser", Json.null)]
       | _ => fields := fields ++ [("deser", Json.null)]
       modelVals := modelVals ++ [Json.mkObj fields]
+      let r := validate c x (setterValue c v)
       let kind := match r with
         | .ok _ => if v.isNone then "ok-none" else if v.isCallable then "ok-callable" else "ok"
         | .error e => errName e
       let b := s!"{tname}:{kind}"
       if !branches.contains b then branches := b :: branches
+      if hooked && !branches.contains "set_hook" then branches := "set_hook" :: branches
+      if c.constant && !branches.contains "constant" then branches := "constant" :: branches
       -- oracle, against the *declared* constraints
       match specC with
       | none => pure ()
       | some sc =>
+        let rbExp (w : PyVal) : Json :=
+          if hooked then Json.mkObj [("val", encVal (storedValue sc (setterValue sc w)))]
+          else Json.str (expectedReadback sc w)
         if !ctorBlocked then
-          for k in routeKeys do
+          for (k, route) in routeKeys do
             let o := (iv.getObjVal? k).toOption.getD Json.null
             match o with
             | .arr a =>
-              if a.size == 2 then
+              if a.size == 3 then
                 checked := checked + 1
                 if specImpl.isNone then
-                  specImpl := (judgeAssign sc x v ((optStr a[0]!).getD "?") (optStr a[1]!)).map
-                    (s!"value #{i} route {k}: {·}")
+                  specImpl := (judgeAssign sc x (route.situation (sameOf o)) v ((optStr a[0]!).getD "?")
+                    (a[1]! == rbExp v)).map (s!"value #{i} route {k}: {·}")
             | _ => pure ()
           match dj, dv? with
           | .arr a, some dv =>
             checked := checked + 1
             if specImpl.isNone then
-              specImpl := (judgeAssign sc x dv ((optStr a[0]!).getD "?") (optStr a[1]!)).map
+              specImpl := (judgeAssign sc x .uninitialised dv ((optStr a[0]!).getD "?") (a[1]! == rbExp dv)).map
                 (s!"value #{i} route deser: {·}")
           | _, _ => pure ()
         if specModel.isNone then
-          specModel := (judgeAssign sc x v out (optStr rb)).map (s!"value #{i}: {·}")
+          for (k, route) in routeKeys do
+            match modelOuts.find? (·.1 == k) with
+            | some (_, out, rb) =>
+              if specModel.isNone then
+                let same := sameOf ((iv.getObjVal? k).toOption.getD Json.null)
+                specModel := (judgeAssign sc x (route.situation same) v out (rb == rbExp v)).map
+                  (s!"value #{i} route {k}: {·}")
+            | none => pure ()
       i := i + 1
     -- aliasing stream: assign a container, mutate the *held* object in place, assign the identical
     -- object again.  Validity is a matter of the content at the time of each assignment.
@@ -314,16 +389,16 @@ def handle (req : Json) : Except String Json := do
                 checked := checked + 1
                 let o1 := (optStr a[0]!).getD "?"
                 if specImpl.isNone then
-                  specImpl := (judgeAssign sc x0 start o1 (if o1 == "ok" then some "same" else none)).map
+                  specImpl := (judgeAssign sc x0 (aliasSit k false) start o1 true).map
                     (s!"alias #{j} route {k}, first assignment: {·}")
                 if specImpl.isNone && o1 == "ok" then
-                  specImpl := (judgeAssign sc x0 after ((optStr a[1]!).getD "?") (optStr a[2]!)).map
+                  specImpl := (judgeAssign sc x0 (aliasSit k true) after ((optStr a[1]!).getD "?")
+                    (optStr a[2]! == some (expectedReadback sc after))).map
                     (s!"alias #{j} route {k}, re-assignment of the held object after mutating it in place: {·}")
             | _ => pure ()
         if specModel.isNone then
           match r1 with
-          | .ok _ => specModel := (judgeAssign sc x0 after (resName r2)
-              (match r2 with | .ok _ => some (expectedReadback c after) | .error _ => none)).map (s!"alias #{j}: {·}")
+          | .ok _ => specModel := (judgeAssign sc x0 (.initialised true) after (resName r2) true).map (s!"alias #{j}: {·}")
           | .error _ => pure ()
       j := j + 1
   let optJ : Option String → Json := fun | some s => Json.str s | none => Json.null
